@@ -25,6 +25,9 @@ type Clause struct {
 	TR bool     `json:"tr,omitempty"`
 }
 
+// wrapIncludes (C14): every include is bracketed by the harness's snap/mark tags.
+var wrapIncludes bool
+
 func mk(l bool) string {
 	if l {
 		return "-"
@@ -47,6 +50,11 @@ func (n *TNode) write(sb *strings.Builder) {
 	case "obj":
 		sb.WriteString("{{" + mk(n.TL) + " " + n.S + " " + mk(n.TR) + "}}")
 	case "tag":
+		if wrapIncludes && strings.HasPrefix(n.S, "include ") {
+			arg := strings.TrimPrefix(n.S, "include ")
+			sb.WriteString("{% snap " + arg + " %}{% include " + arg + " %}{% mark %}")
+			return
+		}
 		sb.WriteString("{%" + mk(n.TL) + " " + n.S + " " + mk(n.TR) + "%}")
 	case "raw", "comment":
 		sb.WriteString("{%" + mk(n.TL) + " " + n.K + " " + mk(n.TR) + "%}" + n.S + "{%" + mk(n.EL) + " end" + n.K + " " + mk(n.ER) + "%}")
@@ -95,14 +103,14 @@ func (s scope) clone() scope {
 type Gen struct {
 	r           *Rng
 	feat        map[string]bool
-	inc         []string // include targets (relative names); empty = no include
-	incVar      []string // names of variables bound to include target names
+	incArgs     []string // argument expressions for include tags; empty = no include
 	budget      int
 	loop        int
 	nvar        int
 	used        map[string]int // constructs used (tag/filter coverage)
 	MapEmphasis bool           // C02: prefer maps as iteration / filter inputs
 	NoCustom    bool           // only standard tags and filters
+	ArrEmphasis bool           // C03/C04: prefer arrays with mutating-looking filters
 }
 
 var allFeatures = []string{"trim", "raw", "comment", "tablerow", "cycle", "capture", "case", "custom", "errors", "filters", "assign", "breaks", "unless", "loopmods", "nest"}
@@ -268,6 +276,9 @@ func (g *Gen) arrayExpr(sc scope) string {
 	if g.MapEmphasis {
 		w = []int{2, 8, 1, 1, 1}
 	}
+	if g.ArrEmphasis {
+		w = []int{10, 2, 1, 1, 3}
+	}
 	if len(sc.arrs) == 0 {
 		w[0] = 0
 	}
@@ -291,6 +302,11 @@ func (g *Gen) arrayExpr(sc scope) string {
 	default:
 		base = "recs"
 	}
+	if g.ArrEmphasis {
+		f := pick(g.r, arrFilters)
+		g.use("filter:" + f.name)
+		base += " | " + f.name + f.args(g, sc)
+	}
 	return g.chain(base, arrFilters, sc, 2)
 }
 
@@ -299,6 +315,9 @@ func (g *Gen) scalarExpr(sc scope) string {
 	w := []int{5, 4, 4, 3, 2, 2, 1}
 	if g.MapEmphasis {
 		w = []int{2, 1, 8, 4, 1, 1, 1}
+	}
+	if g.ArrEmphasis {
+		w = []int{2, 1, 8, 2, 1, 2, 1}
 	}
 	if g.loop == 0 {
 		w[5] = 0
@@ -438,7 +457,7 @@ func (g *Gen) node(sc *scope, depth int) *TNode {
 		b(g.loop > 0 && g.feat["breaks"], 1),  // 10 break/continue
 		b(g.feat["comment"], 1),               // 11 comment
 		b(g.feat["raw"], 1),                   // 12 raw
-		b(len(g.inc) > 0, 3),                  // 13 include
+		b(len(g.incArgs) > 0, 3),              // 13 include
 		b(g.feat["custom"] && !g.NoCustom, 1), // 14 echo
 		b(deep && g.feat["custom"] && !g.NoCustom, 1), // 15 wrap
 		b(g.feat["errors"], 1),                        // 16 error construct
@@ -554,12 +573,7 @@ func (g *Gen) node(sc *scope, depth int) *TNode {
 		return g.trim(&TNode{K: "raw", S: pick(g.r, []string{"", "r", " {{ x }} ", "{% if %}", "\n raw \n"})})
 	case 13:
 		g.use("tag:include")
-		switch {
-		case len(g.incVar) > 0 && g.r.Chance(0.3):
-			return &TNode{K: "tag", S: "include " + pick(g.r, g.incVar)}
-		default:
-			return &TNode{K: "tag", S: "include " + quote(pick(g.r, g.inc))}
-		}
+		return &TNode{K: "tag", S: "include " + pick(g.r, g.incArgs)}
 	case 14:
 		g.use("tag:echo")
 		return g.trim(&TNode{K: "tag", S: "echo " + g.scalarExpr(*sc)})
